@@ -47,3 +47,11 @@ package docx
 //@   loop 7:
 //@     invariant 0 <= i && i <= colCount && cells == entry(cells) + i
 //@     decreases colCount - i
+
+// ---- C10: Close releases the archive handle the reader owns, once; closing again is harmless ----
+//@ func (*Reader) Close results (err)
+//@   property C10
+//@   count closed: Close() when true
+//@   ensures handle_released: !isnil(old(r.zipReader)) ==> closed == 1
+//@   ensures nothing_left_to_close: isnil(r.zipReader)
+//@   ensures second_close_is_a_no_op: isnil(old(r.zipReader)) ==> closed == 0 && !err
